@@ -290,7 +290,8 @@ class Gen:
                 "header": ["X-Request-Id", "X-Trace", "If-Match", "x-api-version"], "cookie": ["session", "csrf_token"]}[loc]
         name = base[idx % len(base)]
         kinds = ["string", "integer"] if loc == "path" else ["string", "integer", "boolean", "array_string", "date", "enum_ref",
-                                                             "number", "uuid", "datetime", "array_integer", "enum_inline", "array_enum_ref"]
+                                                             "number", "uuid", "datetime", "array_integer", "enum_inline", "array_enum_ref",
+                                                             "array_enum_inline"]
         if loc == "path" and r.random() < 0.25:
             kinds = ["uuid", "enum_inline", "number"]
         if loc in ("header", "cookie"):
@@ -319,6 +320,8 @@ class Gen:
             sch = {"type": "array", "items": {"type": "integer"}}
         elif k == "enum_inline":
             sch = {"type": "string", "enum": ["asc", "desc", "by-name"]}
+        elif k == "array_enum_inline":      # items need a promoted enum class, named after the operation and the parameter
+            sch = {"type": "array", "items": {"type": "string", "enum": ["new", "in-progress", "done"]}}
         elif k == "array_enum_ref":
             t = r.choice(self.enums())
             sch = {"type": "array", "items": ref(t)}
@@ -658,8 +661,54 @@ class Doc:
         return Doc(d["doc"], d["sexp"], d["ops"], set(d["features"]))
 
 
+def componentise(rng, d: Doc, p: float = 0.5) -> Doc:
+    """Move some inline parameters, responses and request bodies into components.parameters / .responses / .requestBodies
+    and refer to them with $ref.  Identical objects share one component, so one component response ends up referenced
+    under several status codes and from several operations.  Meaning - and therefore the expectation model - is unchanged."""
+    import json as _json
+
+    comps = d.doc.setdefault("components", {})
+    pool: dict[str, dict[str, str]] = {"parameters": {}, "responses": {}, "requestBodies": {}}
+
+    def share(kind: str, obj: dict, prefix: str) -> dict:
+        key = _json.dumps(obj, sort_keys=True)
+        name = pool[kind].get(key)
+        if name is None:
+            name = f"{prefix}{len(pool[kind]) + 1}"
+            pool[kind][key] = name
+            comps.setdefault(kind, {})[name] = obj
+        return {"$ref": f"#/components/{kind}/{name}"}
+
+    used = False
+    for item in d.doc.get("paths", {}).values():
+        for holder in [item] + [op for op in item.values() if isinstance(op, dict) and "responses" in op]:
+            params = holder.get("parameters")
+            if isinstance(params, list):
+                for i, prm in enumerate(params):
+                    if "$ref" not in prm and rng.random() < p:
+                        params[i] = share("parameters", prm, "SharedParam")
+                        used = True
+        for op in item.values():
+            if not (isinstance(op, dict) and "responses" in op):
+                continue
+            for code, resp in list(op["responses"].items()):
+                if "$ref" not in resp and rng.random() < p:
+                    op["responses"][code] = share("responses", resp, "SharedResponse")
+                    used = True
+            rb = op.get("requestBody")
+            if isinstance(rb, dict) and "$ref" not in rb and rng.random() < p:
+                op["requestBody"] = share("requestBodies", rb, "SharedBody")
+                used = True
+    if used:
+        d.features.add("component_refs")
+    return d
+
+
 def generate(rng, allow: set[str] | None = None, prof: dict | None = None) -> Doc:
-    return Gen(rng, allow, prof).build()
+    d = Gen(rng, allow, prof).build()
+    if prof and rng.random() < prof.get("p_component_refs", 0.0):
+        componentise(rng, d)
+    return d
 
 
 LAYOUTS = [
